@@ -582,7 +582,8 @@ type vtCaller struct {
 	Released bool // its token has been completed
 	Canceled bool
 	CancelAt time.Duration
-	HoldMs   int // >0: completes by itself that long after the grant
+	HoldMs   int  // >0: completes by itself that long after the grant
+	Relay    bool // completes its token by itself immediately after the grant (no time passes)
 	Outcome  int
 	Order    int64 // logical order of return
 }
@@ -598,6 +599,10 @@ type vtWorld struct {
 	maxHeld atomic.Int64
 
 	baseGoroutines int // runtime.NumGoroutine() when the world was created (inside the bubble)
+
+	// atReturn, when set, runs in the caller's own goroutine the moment its Acquire has returned (before the
+	// harness records the result). Cooperative mode only: nothing else runs until it yields.
+	atReturn func(c *vtCaller, ok bool)
 }
 
 func newWorld(st *stack, t0 time.Time) *vtWorld {
@@ -635,11 +640,21 @@ func (w *vtWorld) start(c *vtCaller) {
 	go func() {
 		defer w.wg.Done()
 		l, ok := w.st.lim.Acquire(c.ctx)
+		if w.atReturn != nil {
+			w.atReturn(c, ok)
+		}
 		w.mu.Lock()
 		c.L, c.OK, c.RetAt, c.Done = l, ok, w.now(), true
 		w.retSeq++
 		c.Order = w.retSeq
 		w.mu.Unlock()
+		if ok && l != nil && c.Relay {
+			w.mu.Lock()
+			c.Released = true
+			w.mu.Unlock()
+			complete(l, c.Outcome)
+			return
+		}
 		if ok && l != nil && c.HoldMs > 0 {
 			n := w.holders.Add(1)
 			for {
